@@ -15,7 +15,7 @@ from engine.sym import pick
 
 ID = "C17"
 U = {"u1": "urn:u1", "u2": "urn:u2"}
-CFG = {"qroot": 0, "converter": "default", "mode": "stacked", "ndecl": 5, "nan": 3, "ncn": 2}
+CFG = {"qroot": 0, "converter": "default", "mode": "stacked", "ndecl": 5, "nan": 3, "ncn": 2, "deepc": False}
 
 _XSD = """<xs:schema xmlns:xs="http://www.w3.org/2001/XMLSchema" targetNamespace="urn:u1">
   <xs:element name="n" type="xs:anyType"/></xs:schema>"""
@@ -77,6 +77,11 @@ def _build(kw):
     a_q, a_x = name(a_scope, an, 'a')
     b_q, b_x = name(b_scope, bn, 'b')
     c_q, c_x = name(root_scope, cn, 'c')
+    if CFG["deepc"]:
+        # the following sibling is one level deeper: <z><c/></z> (z without declarations, named in the root scope)
+        z_q, z_x = name(root_scope, len(_bindings(root_scope)) - 1, 'z')
+        xml = '<p:n %s><%s%s><%s%s>t</%s></%s><%s><%s>t</%s></%s></p:n>' % (root_decl, a_q, a_txt, b_q, b_txt, b_q, a_q, z_q, c_q, c_q, z_q)
+        return xml, {"a": a_x, "b": b_x, "z": z_x, "c": c_x}
     xml = '<p:n %s><%s%s><%s%s>t</%s></%s><%s>t</%s></p:n>' % (root_decl, a_q, a_txt, b_q, b_txt, b_q, a_q, c_q, c_q)
     return xml, {"a": a_x, "b": b_x, "c": c_x}
 
@@ -222,7 +227,7 @@ def h_roundtrip(**kw) -> bool:
     if elem is None:
         return False
     tags = [e.tag for e in elem.iter()]
-    want = ['{%s}n' % U["u1"], expected["a"], expected["b"], expected["c"]]
+    want = ['{%s}n' % U["u1"], expected["a"], expected["b"]] + ([expected["z"]] if "z" in expected else []) + [expected["c"]]
     return tags == want
 
 
@@ -261,7 +266,7 @@ def obligations(tier, seed):
     out = []
     nd = 5 if quick else len(DECLS)
     args = [[a, "int"] for a in ("ad", "an", "bd", "bn", "cn")]
-    plan = [("stacked", "default"), ("stacked", "jsonml")] if quick else [("stacked", "default"), ("stacked", "jsonml"), ("stacked", "badgerfish"), ("collapsed", "default"), ("root-only", "default")]
+    plan = [("stacked", "default"), ("stacked", "jsonml"), ("collapsed", "default")] if quick else [("stacked", "default"), ("stacked", "jsonml"), ("stacked", "badgerfish"), ("collapsed", "default"), ("root-only", "default")]
     for mode, conv in plan:
         for qroot in range(len(QROOT)):
             out.append({"name": "decode/%s/%s/q%d" % (mode, conv, qroot), "fn": "h_decode", "pre": "pre_script", "args": args,
@@ -269,6 +274,9 @@ def obligations(tier, seed):
                         "timeout": 400 if quick else 3000, "twin_timeout": 30,
                         "bound": "3 levels + sibling; %d declaration choices per inner element; 2-3 naming choices" % nd})
     for qroot in (range(len(QROOT)) if not quick else (1,)):
+        out.append({"name": "roundtrip-deep/stacked/default/q%d" % qroot, "fn": "h_roundtrip", "pre": "pre_script", "args": args,
+                    "config": {"qroot": qroot, "converter": "default", "mode": "stacked", "ndecl": nd, "nan": 1, "ncn": 2, "deepc": True},
+                    "timeout": 400 if quick else 3000, "twin_timeout": 30, "bound": "as decode, the following sibling one level deeper (<z><c/></z>)"})
         out.append({"name": "roundtrip/stacked/default/q%d" % qroot, "fn": "h_roundtrip", "pre": "pre_script", "args": args,
                     "config": {"qroot": qroot, "converter": "default", "mode": "stacked", "ndecl": nd, "nan": 2 if quick else 3, "ncn": 1 if quick else 2},
                     "timeout": 400 if quick else 3000, "twin_timeout": 30,
